@@ -173,8 +173,11 @@ def calls_for(W, rng):
         mach.fit_using_array(Xin(), np.array(W.labels))
         return mach, [mach.enroll_using_array(X), mach.transform(X)]
 
+    if not hasattr(W, "ivec_cfg"):  # drawn once per world: covariance update on / off, a floor that may lie above some UBM variance
+        W.ivec_cfg = (bool(rng.integers(0, 2)), float(rng.choice([1e-10, 1e-10, 0.5, 2.0])))
+
     def ivec():
-        mach = IVectorMachine(W.ubm, dim_t=1, max_iterations=2)
+        mach = IVectorMachine(W.ubm, dim_t=1, max_iterations=2, update_sigma=W.ivec_cfg[0], variance_floor=W.ivec_cfg[1])
         mach.fit(W.stats)
         return mach, [mach.project(W.stats[0]), mach.transform(W.stats)]
 
